@@ -8,46 +8,12 @@ import OidcModel.Model.Footprint
 namespace C20
 open Footprint
 
-/-- F-C20a: `WithCustom*Endpoint(s)` write through the `endpoints` pointer that `NewProvider` initialises with the
-    package-level `op.DefaultEndpoints`. -/
-def knownA : List (String × Cell) := [
-  ("op.WithCustomAuthEndpoint", .global "op.DefaultEndpoints" ["Authorization"]),
-  ("op.WithCustomTokenEndpoint", .global "op.DefaultEndpoints" ["Token"]),
-  ("op.WithCustomIntrospectionEndpoint", .global "op.DefaultEndpoints" ["Introspection"]),
-  ("op.WithCustomUserinfoEndpoint", .global "op.DefaultEndpoints" ["Userinfo"]),
-  ("op.WithCustomRevocationEndpoint", .global "op.DefaultEndpoints" ["Revocation"]),
-  ("op.WithCustomEndSessionEndpoint", .global "op.DefaultEndpoints" ["EndSession"]),
-  ("op.WithCustomKeysEndpoint", .global "op.DefaultEndpoints" ["JwksURI"]),
-  ("op.WithCustomDeviceAuthorizationEndpoint", .global "op.DefaultEndpoints" ["DeviceAuthorization"]),
-  ("op.WithCustomEndpoints", .global "op.DefaultEndpoints" ["Authorization"]),
-  ("op.WithCustomEndpoints", .global "op.DefaultEndpoints" ["Token"]),
-  ("op.WithCustomEndpoints", .global "op.DefaultEndpoints" ["Userinfo"]),
-  ("op.WithCustomEndpoints", .global "op.DefaultEndpoints" ["Revocation"]),
-  ("op.WithCustomEndpoints", .global "op.DefaultEndpoints" ["EndSession"]),
-  ("op.WithCustomEndpoints", .global "op.DefaultEndpoints" ["JwksURI"])]
-
-/-- F-C20b: `CallEndSessionEndpoint` / `CallRevokeEndpoint` assign `CheckRedirect` on the client returned by
-    `caller.HttpClient()`: the package default client, the client handed to `WithHTTPClient`/`WithClient`, or the
-    client of a caller-implemented `EndSessionCaller` / `RevokeCaller`. -/
-def knownB : List (String × Cell) := [
-  ("client.CallEndSessionEndpoint", .supplied "via:HttpClient" ["CheckRedirect"]),
-  ("client.CallEndSessionEndpoint", .global "http.DefaultHTTPClient" ["CheckRedirect"]),
-  ("client.CallEndSessionEndpoint", .supplied "http.Client" ["CheckRedirect"]),
-  ("client.CallRevokeEndpoint", .supplied "via:HttpClient" ["CheckRedirect"]),
-  ("client.CallRevokeEndpoint", .global "http.DefaultHTTPClient" ["CheckRedirect"]),
-  ("client.CallRevokeEndpoint", .supplied "http.Client" ["CheckRedirect"])]
-
-/-- F-C20c: the getter `DeviceAuthorizationState.GetAudience` appends to the (storage-owned) state. -/
-def knownC : List (String × Cell) := [
-  ("op.DeviceAuthorizationState.GetAudience", .supplied "op.DeviceAuthorizationState" ["Audience"])]
-
-/-- F-C20d: `NewRelyingPartyOAuth` writes `Endpoint.AuthStyle` of the caller's `*oauth2.Config`.
-    F-C20f: `ConcatenateJSON` overwrites the last byte of the caller's first slice and appends to it.
-    F-C20g: `WithIssuerFromCustomHeaders` canonicalises the caller's header names in place. -/
-def knownDFG : List (String × Cell) := [
-  ("rp.NewRelyingPartyOAuth", .supplied "oauth2.Config" ["Endpoint", "AuthStyle"]),
-  ("http.ConcatenateJSON", .supplied "[]byte" ["[]"]),
-  ("op.WithIssuerFromCustomHeaders$ret", .supplied "[]string" ["[]"])]
+/-! The findings F-C20a (`WithCustom*Endpoint(s)` writing the package-level `op.DefaultEndpoints`), F-C20b
+    (`CallEndSessionEndpoint` / `CallRevokeEndpoint` assigning `CheckRedirect` on the shared HTTP client), F-C20c (the getter
+    `DeviceAuthorizationState.GetAudience` appending to its receiver), F-C20d (`NewRelyingPartyOAuth` writing the caller's
+    `*oauth2.Config`), F-C20f (`ConcatenateJSON` overwriting its first argument) and F-C20g (`WithIssuerFromCustomHeaders`
+    canonicalising the caller's slice in place) are repaired in the source: their cells and sites are no longer listed here,
+    and `hidden_exact` / `undisciplined_exact` (Proofs/C20.lean) fail with the site's name if one of them comes back. -/
 
 /-- class E (potential): `append` to a slice that aliases the caller's slice; writes the caller's backing array only
     beyond the caller's length (spare capacity), so the caller's VALUE is unchanged — a hazard when the same backing
@@ -63,37 +29,16 @@ def knownE : List (String × Cell) := [
 def auditedHidden : List (String × Cell) := [
   ("rp.jsonWebKeySet.UnmarshalJSON", .supplied "rp.jsonWebKeySet" ["Keys"])]
 
-def knownHidden : List (String × Cell) := knownA ++ knownB ++ knownC ++ knownDFG ++ knownE ++ auditedHidden
+def knownHidden : List (String × Cell) := knownE ++ auditedHidden
 
 def knownCells : List Cell := knownHidden.map Prod.snd
 
-/-- write sites `(function, target)` of the findings above -/
+/-- write sites `(function, target)` of class E above -/
 def findingSites : List (String × String) := [
-  ("client.CallEndSessionEndpoint", "client.CheckRedirect"),
-  ("client.CallRevokeEndpoint", "client.CheckRedirect"),
-  ("rp.NewRelyingPartyOAuth", "rp.oauthConfig.Endpoint.AuthStyle"),
   ("rp.NewRelyingPartyOIDC", "rp.verifierOpts"),
-  ("http.ConcatenateJSON", "first[len(first) - 1]"),
-  ("http.ConcatenateJSON", "first"),
   ("oidc.NewAccessTokenClaims", "audience"),
   ("oidc.AppendClientIDToAudience", "audience"),
-  ("op.WithIssuerFromCustomHeaders$ret", "headers[i]"),
-  ("op.RegisterLegacyServer", "options"),
-  ("op.DeviceAuthorizationState.GetAudience", "r.Audience"),
-  ("op.WithCustomAuthEndpoint", "o.endpoints.Authorization"),
-  ("op.WithCustomTokenEndpoint", "o.endpoints.Token"),
-  ("op.WithCustomIntrospectionEndpoint", "o.endpoints.Introspection"),
-  ("op.WithCustomUserinfoEndpoint", "o.endpoints.Userinfo"),
-  ("op.WithCustomRevocationEndpoint", "o.endpoints.Revocation"),
-  ("op.WithCustomEndSessionEndpoint", "o.endpoints.EndSession"),
-  ("op.WithCustomKeysEndpoint", "o.endpoints.JwksURI"),
-  ("op.WithCustomDeviceAuthorizationEndpoint", "o.endpoints.DeviceAuthorization"),
-  ("op.WithCustomEndpoints", "o.endpoints.Authorization"),
-  ("op.WithCustomEndpoints", "o.endpoints.Token"),
-  ("op.WithCustomEndpoints", "o.endpoints.Userinfo"),
-  ("op.WithCustomEndpoints", "o.endpoints.Revocation"),
-  ("op.WithCustomEndpoints", "o.endpoints.EndSession"),
-  ("op.WithCustomEndpoints", "o.endpoints.JwksURI")]
+  ("op.RegisterLegacyServer", "options")]
 
 /-- justified sites that the syntactic discipline check cannot see through:
     `inflight.done` — single owner, result published by `close(doneCh)` (the single-flight protocol is C13's subject);
